@@ -311,9 +311,33 @@ pub fn run_schedule<K: HKey>(
             verif::install(Some(Arc::new(Handle { sched: sched.clone(), t })));
             // a user-held IndexReadGuard, kept alive across the following calls of this thread
             let mut held = None;
+            // a transaction that stays open across the following calls of this thread (txbegin .. txfinish | txabort)
+            let mut open_tx: Option<cassadilia::Transaction<'_, K>> = None;
             for op in prog.iter() {
                 sched.park(t, "call");
                 let r = match op["op"].as_str() {
+                    Some("txbegin") => {
+                        let content = u.content(op["c"].as_str().unwrap());
+                        match cas.put(u.key(op["k"].as_u64().unwrap() as usize)) {
+                            Ok(mut tx) => {
+                                let w = tx.write(content);
+                                open_tx = Some(tx);
+                                json!({"ok": w.is_ok(), "val": "ok", "n": 0, "err": if w.is_ok() { "" } else { "write" }})
+                            }
+                            Err(e) => json!({"ok": false, "val": "err", "n": 0, "err": err_class(&e)}),
+                        }
+                    }
+                    Some("txfinish") => match open_tx.take() {
+                        Some(tx) => match tx.finish() {
+                            Ok(()) => json!({"ok": true, "val": "ok", "n": 0, "err": ""}),
+                            Err(e) => json!({"ok": false, "val": "err", "n": 0, "err": err_class(&e)}),
+                        },
+                        None => json!({"ok": false, "val": "err", "n": 0, "err": "no-open-tx"}),
+                    },
+                    Some("txabort") => {
+                        open_tx = None;
+                        json!({"ok": true, "val": "ok", "n": 0, "err": ""})
+                    }
                     Some("guard") => {
                         held = Some(cas.read_index_state());
                         json!({"ok": true, "val": "ok", "n": 0, "err": ""})
@@ -327,6 +351,7 @@ pub fn run_schedule<K: HKey>(
                 results.lock().unwrap()[t].push(r);
             }
             drop(held);
+            drop(open_tx);
             verif::install(None);
             sched.done(t);
         }));
